@@ -234,3 +234,23 @@ def c12(c):
               'target_never_reached', 'resumed_segments_checked', 'mpi_runs_checked', 'integrand_identically-zero', 'integrand_constant',
               'integrand_non-finite-everywhere', 'integrand_zero-mean', 'positive_target_with_undefined_relative_error'):
         c.require(k)
+
+
+import c18 as _c18
+
+
+@prop('C18',
+      rule="fault enumeration: for each workload (PLAIN+minstd_rand ~150 B checkpoint, PLAIN+mt19937 ~7-20 KiB, VEGAS 128 bins x 3 dims with a 1-d "
+           "and a 2-d distribution > 100 KiB, multi-channel 40 channels) a record run under the LD_PRELOAD interposer lists every file-system "
+           "event (fopen, write, writev, fclose, rename, unlink) on the checkpoint directory per iteration; then the application is started "
+           "from scratch once per crash point: SIGKILL before and after EVERY event, and inside every write after a byte prefix (all prefixes "
+           "for writes <= 4 KiB in the thorough tier; otherwise 0,1,n/2,n-1, every 4 KiB and 8191-byte boundary +-1 and 12..64 seeded offsets). "
+           "After each kill the file must be absent (first iteration only) or byte-equal to the previous or the new reference checkpoint, "
+           "and a restart without faults must reach the reference final checkpoint. non-trivial = every executed kill point; distinct = "
+           "(workload, event number, before/after/partial, prefix).",
+      assumptions=["a process kill cannot observe page-cache loss: durability against power failure (fsync) is out of reach",
+                   "kills inside a system call are modelled at byte-prefix granularity of write/writev",
+                   "libstdc++ reaches the kernel through fopen64/write/writev/fclose/rename in the PLT (thorough tier cross-checks the write events against strace)"],
+      level='fault_enumeration', exhaustive=True)
+def c18(c):
+    _c18.run(c)
